@@ -72,6 +72,17 @@ CLAIMED["C12"] = dict(
     technique="Lean 4 inductive invariants over all interleavings + regenerated structural facts + barrier harness",
     ref="DESIGN.md §6 C12")
 
+CLAIMED["C13"] = dict(
+    text="Lean theorems about executeWithRetries as a total function of (MaxRetries, outcome script, cancel point), for ALL of them: attempts = 1 + min(max 0 MaxRetries, failures before the first success); stops on the first success; a context end during the k-th wait gives exactly k attempts; the trace is attempt, wait, attempt, ... so every re-attempt is preceded by one RetryInterval wait (with a timed version: starts are >= interval after the previous end); a panic ends the sequence, is consumed by the deferred recover and the function returns normally (the result type has no propagated-panic outcome; recovered iff some attempt panicked). Tie: regenerated shape of executeWithRetries (deferred recover first, loop bounds i:=1; i<=MaxRetries, break on success, ctx.Done break, call sites) pinned by decide + exhaustive differential: MaxRetries in {-1..4} x all outcome strings of length <= 5 over {ok, err, panic} x three execution modes on the real scheduler, plus cancellations; sibling job, next fire time and Wait observed after panics.",
+    note="time.NewTimer/select/defer-recover semantics trusted; real-time gaps >= RetryInterval observed one-sidedly",
+    technique="Lean 4 proofs about a transcribed retry loop + regenerated shape facts + exhaustive differential correspondence",
+    ref="DESIGN.md §6 C13")
+CLAIMED["C17"] = dict(
+    text="Lean theorems about an interleaving model of isolatedJob.Execute (atomic swap, delegate, deferred store) for ANY number of threads and ALL interleavings via an inductive invariant: at most one thread is inside the delegate or between its exit and the store (C17_mutex); a call that sees the flag set never enters the delegate and returns the error (C17_fail_fast); flag true iff some thread holds it, and after any completion incl. panic the holder's next step clears it, so the next call is admitted (C17_reopens, C17_admitted_when_free, C17_reopens_progress); proved negative control without the defer (a panic shuts the gate for ever). Tie: regenerated facts (swap guard returning an error first, defer Store(false) before the delegate call, atomic.Bool) + hammer: 32 goroutines with in-flight counter, panics, rejected calls never invoke the delegate, quiescent probe admitted, also through a real scheduler.",
+    note="sync/atomic semantics trusted; real interleavings observed",
+    technique="Lean 4 inductive invariant over all interleavings and thread counts + regenerated facts + concurrent hammer",
+    ref="DESIGN.md §6 C17")
+
 REASON_PENDING = "check not built yet (build phase in progress); planned per DESIGN.md §6"
 
 m = {
